@@ -1083,6 +1083,228 @@ pub fn gen_f64(g: &mut Gen, prefix: &str, mode: &str, pairings: &[&str], expect:
     }
 }
 
+// ---------------------------------------------------------------------------------------------
+// the operator x operand-form x pairing MATRIX, enumerated exhaustively once per run
+// ---------------------------------------------------------------------------------------------
+
+/// Every cell of: {record∘number `+ − × ÷ pow`, number∘record `− ÷ pow`} x 4 forms x {variable,
+/// constant record}, and record∘record `+ − × ÷ pow` x 4 forms x 4 pairings, with distinct,
+/// non-commutative witness values (x = 3, y = 5, number 7: `x^c ≠ c^x`, `x−c ≠ c−x`, …), each
+/// followed by `derivs`.  Counted as `<prefix>.matrix.<op>.<form>.<pairing>`.
+pub fn gen_matrix(g: &mut Gen, prefix: &str, head: &str, ty: &str, kind: Kind) {
+    g.op(format!("{}{}", head, ty));
+    g.op("var r0 3 t=0 via=record".into());
+    g.op("const r1 3 via=constant".into());
+    g.op("var r2 5 t=0 via=list".into());
+    g.op("const r3 5 via=constant".into());
+    let mut k = 4;
+    let real = kind == Kind::Fp;
+    let num_ops: &[&str] = if real {
+        &["addn", "subn", "muln", "divn", "pown", "subsw", "divsw", "npow"]
+    } else {
+        &["addn", "subn", "muln", "divn", "subsw", "divsw"]
+    };
+    for op in num_ops {
+        for via in FORMS4 {
+            for (a, pairing) in [(0usize, "variable"), (1, "constant")] {
+                g.count(&format!("{}.matrix.{}.{}.{}", prefix, op, via, pairing));
+                if *op == "npow" {
+                    g.op(format!("npow r{} 7 r{} via={}", k, a, via));
+                } else {
+                    g.op(format!("{} r{} r{} 7 via={}", op, k, a, via));
+                }
+                g.op(format!("derivs r{} via=vec", k));
+                k += 1;
+            }
+        }
+    }
+    let bin_ops: &[&str] = if real { &["add", "sub", "mul", "div", "pow"] } else { &["add", "sub", "mul", "div"] };
+    for op in bin_ops {
+        for via in FORMS4 {
+            for (a, b, pairing) in [(0usize, 2usize, "var_var"), (0, 3, "var_const"), (1, 2, "const_var"), (1, 3, "const_const")] {
+                g.count(&format!("{}.matrix.{}.{}.{}", prefix, op, via, pairing));
+                g.op(format!("{} r{} r{} r{} via={}", op, k, a, b, via));
+                g.op(format!("derivs r{} via=vec", k));
+                k += 1;
+            }
+        }
+    }
+    for op in ["neg", "sin", "cos", "exp", "ln", "sqrt"] {
+        if !real && op != "neg" {
+            continue;
+        }
+        for via in FORMS2 {
+            for (a, pairing) in [(0usize, "variable"), (1, "constant")] {
+                g.count(&format!("{}.matrix.{}.{}.{}", prefix, op, via, pairing));
+                g.op(format!("{} r{} r{} via={}", op, k, a, via));
+                g.op(format!("derivs r{} via=vec", k));
+                k += 1;
+            }
+        }
+    }
+}
+
+// ---------------------------------------------------------------------------------------------
+// integer element types at their boundary values: implementation vs the plain operator
+// ---------------------------------------------------------------------------------------------
+//
+//   @ int rec|trace i32|i64 <op> <pairing> <x> <y> via=<form>      → int=ok | int=DIFF …
+//
+// Like the `@ f64` lines: each line a case of its own, the Lean driver answers `int=ok`, the
+// harness compares `Record<i32>` / `Record<i64>` with the plain operator evaluated inside
+// `catch` (dev profile: overflow checks on): the value, or the panic kind.  A result that needs a
+// derivative is expected to panic where the documented rule of functions.rs itself overflows.
+
+pub const INT_PAIRINGS: [&str; 7] = ["vv", "vc", "cv", "xx", "vn", "nv", "cc"];
+
+macro_rules! int_checks {
+    ($T:ty, $modname:ident) => {
+        pub mod $modname {
+            use super::*;
+            pub const VALUES: [$T; 7] = [<$T>::MIN, <$T>::MIN + 1, -1, 0, 1, <$T>::MAX - 1, <$T>::MAX];
+
+            pub fn value(op: &str, l: $T, r: $T) -> $T {
+                match op {
+                    "add" => l + r,
+                    "sub" => l - r,
+                    "mul" => l * r,
+                    "div" => l / r,
+                    _ => -l,
+                }
+            }
+            /// the local derivatives as functions.rs documents them
+            pub fn local(op: &str, x: $T, y: $T) -> ($T, $T) {
+                match op {
+                    "add" => (1, 1),
+                    "sub" => (1, -1),
+                    "mul" => (y, x),
+                    "div" => (1 / y, -x / (y * y)),
+                    _ => (-1, 0),
+                }
+            }
+            /// only the derivative(s) the pairing records are evaluated, left before right
+            pub fn expect_rec(op: &str, pairing: &str, x: $T, y: $T) -> Result<($T, Option<$T>, Option<$T>), PanicKind> {
+                catch(|| {
+                    if op == "neg" {
+                        let v = value(op, x, 0);
+                        return (v, if pairing == "v" { Some(0 + 1 * -1) } else { None }, None);
+                    }
+                    let (l, r) = if pairing == "xx" { (x, x) } else { (x, y) };
+                    let v = value(op, l, r);
+                    match pairing {
+                        "vv" => { let (wl, wr) = local(op, l, r); (v, Some(0 + 1 * wl), Some(0 + 1 * wr)) }
+                        "xx" => { let (wl, wr) = local(op, l, r); (v, Some((0 + 1 * wl) + 1 * wr), None) }
+                        "vc" | "vn" => { let wl = local_left(op, l, r); (v, Some(0 + 1 * wl), None) }
+                        "cv" | "nv" => { let wr = local_right(op, l, r); (v, None, Some(0 + 1 * wr)) }
+                        _ => (v, None, None),
+                    }
+                })
+            }
+            pub fn local_left(op: &str, _x: $T, y: $T) -> $T {
+                match op { "add" | "sub" => 1, "mul" => y, _ => 1 / y }
+            }
+            pub fn local_right(op: &str, x: $T, y: $T) -> $T {
+                match op { "add" => 1, "sub" => -1, "mul" => x, _ => -x / (y * y) }
+            }
+            pub fn run_rec(op: &str, pairing: &str, x: $T, y: $T, via: &str) -> Result<($T, Option<$T>, Option<$T>), PanicKind> {
+                catch(|| {
+                    let list = WengertList::<$T>::new();
+                    let mk = |is_var: bool, v: $T| if is_var { Record::variable(v, &list) } else { Record::constant(v) };
+                    if op == "neg" {
+                        let a = mk(pairing == "v", x);
+                        let r = op2!(via, &a, Neg::neg);
+                        let dx = r.try_derivatives().filter(|_| pairing == "v").map(|d| d[&a]);
+                        return (r.number, dx, None);
+                    }
+                    let (xv, yv) = match pairing {
+                        "vv" => (true, true),
+                        "vc" | "vn" | "xx" => (true, false),
+                        "cv" | "nv" => (false, true),
+                        _ => (false, false),
+                    };
+                    let a = mk(xv, x);
+                    let b = mk(yv, y);
+                    let r = match (pairing, op) {
+                        ("xx", "add") => op4!(via, &a, &a, Add::add),
+                        ("xx", "sub") => op4!(via, &a, &a, Sub::sub),
+                        ("xx", "mul") => op4!(via, &a, &a, Mul::mul),
+                        ("xx", _) => op4!(via, &a, &a, Div::div),
+                        ("vn", "add") => op4!(via, &a, &y, Add::add),
+                        ("vn", "sub") => op4!(via, &a, &y, Sub::sub),
+                        ("vn", "mul") => op4!(via, &a, &y, Mul::mul),
+                        ("vn", _) => op4!(via, &a, &y, Div::div),
+                        ("nv", "sub") => op4!(via, &b, &x, SwappedOperations::sub_swapped),
+                        ("nv", _) => op4!(via, &b, &x, SwappedOperations::div_swapped),
+                        (_, "add") => op4!(via, &a, &b, Add::add),
+                        (_, "sub") => op4!(via, &a, &b, Sub::sub),
+                        (_, "mul") => op4!(via, &a, &b, Mul::mul),
+                        (_, _) => op4!(via, &a, &b, Div::div),
+                    };
+                    let d = r.try_derivatives();
+                    let dx = d.as_ref().filter(|_| xv).map(|d| d[&a]);
+                    let dy = d.as_ref().filter(|_| yv).map(|d| d[&b]);
+                    (r.number, dx, dy)
+                })
+            }
+            pub fn compare(got: Result<($T, Option<$T>, Option<$T>), PanicKind>, want: Result<($T, Option<$T>, Option<$T>), PanicKind>) -> String {
+                if got == want {
+                    return "int=ok".into();
+                }
+                let sh = |r: &Result<($T, Option<$T>, Option<$T>), PanicKind>| match r {
+                    Ok(t) => format!("{:?}", t),
+                    Err(k) => panic_str(*k),
+                };
+                format!("int=DIFF got={} want={}", sh(&got), sh(&want))
+            }
+            pub fn line_rec(toks: &[&str]) -> String {
+                let (op, pairing) = (toks[4], toks[5]);
+                let (x, y): ($T, $T) = (toks[6].parse().unwrap(), toks[7].parse().unwrap());
+                let via = opt_arg("via", toks).unwrap_or("ref_ref");
+                compare(run_rec(op, pairing, x, y, via), expect_rec(op, pairing, x, y))
+            }
+        }
+    };
+}
+int_checks!(i32, int32);
+int_checks!(i64, int64);
+
+/// the `@ int` lines of one mode: every operator x pairing x form x 7 x 7 boundary values
+pub fn gen_int(g: &mut Gen, prefix: &str, mode: &str, pairings: &[&str]) {
+    fn values(ty: &str) -> Vec<String> {
+        if ty == "i32" { int32::VALUES.iter().map(|v| v.to_string()).collect() } else { int64::VALUES.iter().map(|v| v.to_string()).collect() }
+    }
+    for ty in ["i32", "i64"] {
+        let vals = values(ty);
+        for op in ["add", "sub", "mul", "div"] {
+            for pairing in pairings {
+                if *pairing == "nv" && (op == "add" || op == "mul") {
+                    continue;
+                }
+                for via in FORMS4 {
+                    g.count(&format!("{}.int.{}.{}.{}.{}", prefix, ty, op, pairing, via));
+                    for x in &vals {
+                        if *pairing == "xx" {
+                            g.op(format!("@ int {} {} {} {} {} {} via={}", mode, ty, op, pairing, x, x, via));
+                            continue;
+                        }
+                        for y in &vals {
+                            g.op(format!("@ int {} {} {} {} {} {} via={}", mode, ty, op, pairing, x, y, via));
+                        }
+                    }
+                }
+            }
+        }
+        for pairing in ["v", "c"] {
+            for via in FORMS2 {
+                g.count(&format!("{}.int.{}.neg.{}.{}", prefix, ty, pairing, via));
+                for x in &vals {
+                    g.op(format!("@ int {} {} neg {} {} 0 via={}", mode, ty, pairing, x, via));
+                }
+            }
+        }
+    }
+}
+
 /// the LARGE section of C04 / C05 (`header`: `@ tape fp` / `@ trace fp`)
 pub fn gen_large(g: &mut Gen, prefix: &'static str, header: &str) {
     // big sums
@@ -1110,6 +1332,9 @@ pub fn gen(g: &mut Gen) {
     gen_degenerate(g, "c04.fp", "@ tape", " fp", Kind::Fp);
     gen_degenerate(g, "c04.rat", "@ tape", " rat", Kind::Rat);
     gen_f64(g, "c04", "rec", &["vv", "vc", "cv", "xx", "vn", "nv", "cc"], &f64_expect_rec);
+    gen_matrix(g, "c04.fp", "@ tape", " fp", Kind::Fp);
+    gen_matrix(g, "c04.rat", "@ tape", " rat", Kind::Rat);
+    gen_int(g, "c04", "rec", &INT_PAIRINGS);
     if g.thorough {
         gen_chain(g, "c04.fp", "@ tape fp big", 70_100);
     }
@@ -1417,6 +1642,10 @@ impl Runner {
         if toks[0] == "@" && toks.get(1) == Some(&"f64") {
             self.case = Case::None;
             return f64_line_rec(toks);
+        }
+        if toks[0] == "@" && toks.get(1) == Some(&"int") {
+            self.case = Case::None;
+            return if toks[3] == "i32" { int32::line_rec(toks) } else { int64::line_rec(toks) };
         }
         if toks[0] == "@" {
             // drop the old case (records, then tapes) before the new one is made
